@@ -16,12 +16,17 @@ macro "arith_bool" : tactic =>
                   simp only [Bool.and_eq_true, Bool.or_eq_true, decide_eq_true_eq]
                   first | done | omega)))
 
+/-- two selections are the same when their ends are (the source compares the ends; the model compares the selections) -/
+theorem tsel_decide_eq (a c : TSel) : (decide (a.b = c.b) && decide (a.e = c.e)) = decide (a = c) := by
+  cases a; cases c; simp
+
 /-- on every operator without `negate` the source's arm computes what the model computes -/
 theorem gen_relPos_agrees (op : Op) (a c : TSel) (r : Res) (h : op.neg = false) :
     Gen.relPos op a c r = some (relPos op a c r) := by
   cases op <;> simp only [Op.neg] at h <;> subst h
   all_goals first
     | (simp [Gen.relPos, relPos]; done)
+    | (simp [Gen.relPos, relPos, tsel_decide_eq]; done)
     | (rename_i l; cases l <;> simp [Gen.relPos, relPos, Bool.and_assoc]; done)
     | (rename_i w; cases w <;> simp [Gen.relPos, relPos]; done)
     -- a rewrite of an arm into an equivalent piece of linear arithmetic still checks
